@@ -6,9 +6,11 @@ CONSTANTS
   MaxN = 3
   UseTol = FALSE
   Side = "left"
+  InvCheck = "merged"
 INVARIANT MergeLoopIsDeclared
 INVARIANT LoopOperatorAgrees
 INVARIANT SelectIsContaining
 INVARIANT OutsideRaises
 INVARIANT GapNoCrash
+INVARIANT InverseRange
 CHECK_DEADLOCK FALSE
